@@ -43,8 +43,10 @@ def filter_sequences(tier="quick", seed=0, only=None):
             ref = []
             rho = 1.0
             cases += 1
+            prev = _It(1.0, 1.0)  # the start point (never offered to the filter)
             for step, e in enumerate(seq):
-                res = f.update(None, _It(e[0], e[1]))
+                cur = _It(e[0], e[1])
+                res = f.update(prev, cur)
                 dominated = any(_dom(o, e) for o in ref)
                 exp_entries = ref if dominated else [o for o in ref if not _dom(e, o)] + [e]
                 exp_rho = rho * 10.0 if dominated else rho
@@ -63,6 +65,8 @@ def filter_sequences(tier="quick", seed=0, only=None):
                         failures.append(dict(label="C18:" + bad, input=dict(sequence=[list(x) for x in seq], step=step), observed=dict(entries=got_entries, accept=bool(res.accept), rho=float(f.rho))))
                     break
                 ref, rho = exp_entries, exp_rho
+                if res.accept:
+                    prev = cur
     return result(cases, failures, f"all sequences of length <= {L} over a {G}x{G} grid ({cases} sequences), exhaustive")
 
 
